@@ -113,6 +113,26 @@ pub fn eval(c: &FragCase) -> Outcome {
     if t.inits.len() >= 2 && t.inits.iter().any(|x| x != &t.inits[0]) {
         o.fail("init_stable", "init_stable", "init_segment() returned different bytes at different times");
     }
+    // ... also across muxers: one that is asked before anything is written, one that is asked only at the very end
+    if o.violations.is_empty() {
+        let mut early = c.clone();
+        early.ops.insert(0, FGene::Init);
+        let mut late = c.clone();
+        late.ops.retain(|g| !matches!(g, FGene::Init));
+        late.ops.push(FGene::Init);
+        let mut s1 = Outcome::default();
+        let mut s2 = Outcome::default();
+        let te = run_and_check(&mut s1, &lower(&early), false);
+        let tl = run_and_check(&mut s2, &lower(&late), false);
+        o.sub_evals += 2;
+        if te.panic.is_none() && tl.panic.is_none() {
+            if let (Some(a), Some(b)) = (te.inits.first(), tl.inits.last()) {
+                if a != b {
+                    o.fail("init_stable", "init_stable.early_vs_late_request", "a muxer asked for its init segment before the first write and one asked only after the last write return different bytes for the same configuration and history");
+                }
+            }
+        }
+    }
     let irregular = !constant_input;
     let start_nz = t.emitted.first().map(|e| e.expect[0].dts != 0).unwrap_or(false);
     o.nontrivial = t.emitted.len() >= 3 && (start_nz || irregular);
@@ -148,10 +168,10 @@ fn strat(t: Tier) -> proptest::strategy::BoxedStrategy<FragCase> {
 }
 
 fn run_long_frag(ctx: &Ctx) -> SubReport {
-    let mk = |shard: usize, shards: usize| crate::fragcase::long_cases().into_iter().enumerate().filter(move |(i, _)| i % shards.min(4) == shard && shard < 4).map(|(_, c)| c);
+    let mk = |shard: usize, shards: usize| crate::fragcase::long_cases().into_iter().enumerate().filter(move |(i, _)| i % shards.min(6) == shard && shard < 6).map(|(_, c)| c);
     let mut r = run_enumerated(ctx, "long_sequences", &mk, &eval);
     r.exhaustive = false;
-    r.notes.push("fixed list: a 70 000-sample segment, 400 two-sample segments with empty flushes, 3 MiB / 1 MiB+1 / empty samples, 255/256/257/65 536 samples per segment".into());
+    r.notes.push("fixed list: 70 000- and 140 000-sample segments, 400 two-sample segments with empty flushes, a 66 MiB fragment between ordinary ones, 8 MiB+1 / 3 MiB / 1 MiB+1 / empty samples, 255/256/257/65 536 samples per segment".into());
     r
 }
 fn replay_long_frag(v: &serde_json::Value) -> Result<Outcome, String> {
